@@ -155,7 +155,7 @@ def ev_calc(rec, rng, arm, protein, striped, ranks, rows, tag):
 
 def c17_scoring(rec, rng, thorough):
     arms = ["none", "avx2", "sse2", "generic"]
-    n = 50 if thorough else 14
+    n = 80 if thorough else 32
     for it in range(n):
         arm = arms[it % 4]
         lmhook.force_arm(arm)
@@ -182,7 +182,7 @@ def c17_scoring(rec, rng, thorough):
 
 def c17_scan(rec, rng, thorough):
     arms = ["none", "avx2"]        # the generic / sse2 arms run into the known non-saturating 8-bit kernel (C08)
-    n = 160 if thorough else 40
+    n = 300 if thorough else 90
     for it in range(n):
         arm = arms[it % 2]
         lmhook.force_arm(arm)
@@ -229,7 +229,7 @@ def rows_of(mat, n):
 
 
 def c17_create(rec, rng, thorough):
-    n = 120 if thorough else 30
+    n = 200 if thorough else 60
     for it in range(n):
         protein = it % 4 == 3
         k = len(letters(protein))
@@ -263,7 +263,7 @@ def c17_create(rec, rng, thorough):
 
 
 def c17_normalize(rec, rng, thorough):
-    n = 160 if thorough else 40
+    n = 300 if thorough else 90
     for it in range(n):
         protein = it % 5 == 4
         L = letters(protein)
@@ -317,7 +317,7 @@ def c17_normalize(rec, rng, thorough):
 
 
 def c17_pvalues(rec, rng, thorough):
-    n = 60 if thorough else 16
+    n = 90 if thorough else 30
     for it in range(n):
         m = 2 + it % 4
         amp = [8, 20, 40][it % 3]
@@ -456,7 +456,7 @@ def render(fmt, motifs, rng):
 
 
 def c17_load(rec, rng, thorough):
-    n = 48 if thorough else 16
+    n = 96 if thorough else 32
     for it in range(n):
         fmt = ["jaspar", "jaspar16", "transfac", "uniprobe"][it % 4]
         nrec = rng.choice([1, 2, 3, 9])
